@@ -16,8 +16,8 @@ def build(bin_step, py_step, miri_step, fuzz_step):
     S["C13"] = [bin_step("c13"), bin_step("c13", release=True, tiers=("thorough",))]
     S["C14"] = [bin_step("c13", prop="C14"), bin_step("c13", release=True, tiers=("thorough",), prop="C14")]
     S["C20"] = [bin_step("c20"), py_step("gen_concat")]
-    S["C11"] = [bin_step("c11")]
-    S["C15"] = [bin_step("c11", prop="C15")]
+    S["C11"] = [bin_step("c11"), py_step("gen_closure_exits"), miri_step("c11", tiers=("thorough",)), py_step("gen_closure_exits", tiers=("thorough",), miri=True)]
+    S["C15"] = [bin_step("c11", prop="C15"), py_step("gen_destructure"), miri_step("c11", tiers=("thorough",)), py_step("gen_destructure", tiers=("thorough",), miri=True)]
     S["C19"] = [bin_step("c19"), py_step("gen_rebind")]
     S["C10"] = [py_step("gen_chain")]
     S["C17"] = [py_step("gen_reject")]
